@@ -120,7 +120,14 @@ class Impl:
     # ---- parse ---------------------------------------------------------------------------------
     def parse(self, scratch, root_name):
         """-> ('ok', {sec: [element...]}) | ('source', sec, src, path, chain) | ('access', sec, path, chain) |
-        ('crash', repr).  Paths are canonicalised: the absolute path of the root file -> its name."""
+        ('crash', repr).  Paths are canonicalised: the absolute path of the root file -> its name.
+
+        A source is recorded twice by the implementation: as `element.source` / `FileSourceError.source` and as the
+        source of the location (`source_location_info` / last entry of `location_path`) - the latter is what error
+        reports print.  The observation returned uses the LOCATION; if the direct attribute gives a different
+        observation it is kept in self.last_alt and judged as a second observation of the same input.
+        A missing line number / line text (None) is an observation of its own: ('crash', 'NoSourceLine')."""
+        self.last_alt = None
         rp = pathlib.Path(scratch) / root_name
 
         def cpath(p):
@@ -128,28 +135,52 @@ class Impl:
             pre = str(scratch) + os.sep
             return s[len(pre):] if s.startswith(pre) else s
 
+        class NoLine(Exception):
+            pass
+
+        def cseq(src):
+            if src is None or src.first_line_number is None or src.lines is None or any(l is None for l in src.lines):
+                raise NoLine()
+            return (src.first_line_number, list(src.lines))
+
         def cloc(l):
-            return (cpath(l.file_path_rel_referrer), (l.source.first_line_number, list(l.source.lines)))
+            return (cpath(l.file_path_rel_referrer), cseq(l.source))
 
         try:
             tc = self.parser.apply(self.TestCaseFileReference(rp, pathlib.Path(scratch)), self.ParseSource(rp.read_text()))
         except self.exc.FileSourceError as e:
-            lp = list(e.location_path)
-            return ('source', e.maybe_section_name, (e.source.first_line_number, list(e.source.lines)),
-                    cpath(lp[-1].file_path_rel_referrer), [cloc(l) for l in lp[:-1]])
+            try:
+                lp = list(e.location_path)
+                rest = (cpath(lp[-1].file_path_rel_referrer), [cloc(l) for l in lp[:-1]])
+                by_location = ('source', e.maybe_section_name, cseq(lp[-1].source)) + rest
+                direct = ('source', e.maybe_section_name, cseq(e.source)) + rest
+            except NoLine:
+                return ('crash', 'NoSourceLine')
+            if direct != by_location:
+                self.last_alt = direct
+            return by_location
         except self.exc.FileAccessError as e:
-            return ('access', e.maybe_section_name, cpath(e.erroneous_path), [cloc(l) for l in e.location_path])
+            try:
+                return ('access', e.maybe_section_name, cpath(e.erroneous_path), [cloc(l) for l in e.location_path])
+            except NoLine:
+                return ('crash', 'NoSourceLine')
         except Exception as e:  # an escaping exception is an observation
             return ('crash', type(e).__name__)
-        out = {}
-        for name, sc in zip(SECS, (tc.configuration_phase, tc.setup_phase, tc.act_phase, tc.before_assert_phase,
-                                   tc.assert_phase, tc.cleanup_phase)):
-            es = []
-            for e in sc.elements:
-                sli = e.source_location_info
-                es.append((self.kind[e.element_type], (e.source.first_line_number, list(e.source.lines)),
-                           cpath(sli.file_path_rel_referrer), [cloc(l) for l in sli.file_inclusion_chain]))
-            out[name] = es
+        out, alt = {}, {}
+        try:
+            for name, sc in zip(SECS, (tc.configuration_phase, tc.setup_phase, tc.act_phase, tc.before_assert_phase,
+                                       tc.assert_phase, tc.cleanup_phase)):
+                es, es2 = [], []
+                for e in sc.elements:
+                    sli = e.source_location_info
+                    tail = (cpath(sli.file_path_rel_referrer), [cloc(l) for l in sli.file_inclusion_chain])
+                    es.append((self.kind[e.element_type], cseq(sli.source_location_path.location.source)) + tail)
+                    es2.append((self.kind[e.element_type], cseq(e.source)) + tail)
+                out[name], alt[name] = es, es2
+        except NoLine:
+            return ('crash', 'NoSourceLine')
+        if alt != out:
+            self.last_alt = ('ok', alt)
         return ('ok', out)
 
 
@@ -327,6 +358,11 @@ def observe(im, disk, root=ROOT):
     if o[0] == 'access':
         o = o + (disk.why(o[3]),)
     return o
+
+
+def observe_alt(im):
+    """the observation through the direct `source` attributes, when it differs from the one through the locations"""
+    return im.last_alt
 
 
 def dcase_term(im, disk, o, root=ROOT):
@@ -540,6 +576,37 @@ def exhaustive_docs(max_len):
         frontier = [d + [s] for d in frontier for s in range(len(CANON))]
         docs += frontier
     return docs
+
+
+# ---- malformed inclusion directives ----------------------------------------------------------------
+BAD_DIRECTIVES = ['including', 'including a.xly b.xly', "including 'unterminated", 'including a.xly b.xly c.xly',
+                  '  including  ', 'including "a.xly', 'including\ta.xly\tb.xly']
+
+
+def malformed_directive_cases():
+    """every phase other than [act] x malformed `including` x (in the middle | last line with | without final newline)
+    x (in the test case file | in an included file); the error must name the directive's own line, text, file, chain"""
+    for ph in NONACT:
+        ok = 'status = PASS' if ph == 'conf' else 'def string OK = v'
+        for d in BAD_DIRECTIVES:
+            for pos in range(5):
+                if pos == 0:
+                    body = [ok, d, ok, '# c']
+                    end = '\n'
+                elif pos == 1:
+                    body = [ok, d, '[%s]' % ph, ok]
+                    end = '\n'
+                elif pos == 2:
+                    body = [d]
+                    end = '\n'
+                elif pos == 3:
+                    body = [ok, '', d]
+                    end = ''
+                else:
+                    body = [d, '']
+                    end = '\n'
+                yield {ROOT: '[%s]\n' % ph + '\n'.join(body) + end}
+                yield {ROOT: '# c\n[%s]\n%s\nincluding inc.xly\n%s\n' % (ph, ok, ok), 'inc.xly': '\n'.join(body) + end}
 
 
 # ---- phase blocks -----------------------------------------------------------------------------------
@@ -782,6 +849,11 @@ def run(ctx, res, scale=1):
         o = observe(im, disk)
         dterms.append(dcase_term(im, disk, o))
         dmeta.append((files, links, o))
+        o2 = observe_alt(im)
+        if o2 is not None:
+            dterms.append(dcase_term(im, disk, o2))
+            dmeta.append((files, links, o2))
+            res.count('second observation: source attribute differs from the source of the location')
         res.count(tag)
         res.count('outcome: ' + (o[0] if o[0] != 'access' else 'access/' + o[4]))
         if is_nontrivial(files, o):
@@ -799,6 +871,11 @@ def run(ctx, res, scale=1):
     for doc in exhaustive_docs(ex_len):
         lines = [l for s in doc for l in CANON[s]]
         add_case({ROOT: ''.join(l + '\n' for l in lines), 'a.xly': CANON_INC}, {}, 'exhaustive documents')
+        if 0 < len(doc) <= 2:
+            add_case({ROOT: '\n'.join(lines), 'a.xly': CANON_INC}, {}, 'exhaustive documents without final newline')
+    # malformed directives, systematically
+    for files in malformed_directive_cases():
+        add_case(files, {}, 'malformed inclusion directives (phase x form x position x root/included)')
     # random
     for _ in range(n_random):
         files, links, used = gen_files(g, rng, quick)
